@@ -130,3 +130,59 @@ pub proof fn lemma_span_props(s: Seq<char>, f: spec_fn(char) -> bool)
         if span(s, f) < s.len() { assert(s[span(s, f) as int] == t[span(t, f) as int]); }
     }
 }
+// ---- one-character literals: `literal("c")` reads exactly the character c
+pub open spec fn s1(c: char) -> Seq<char> { seq![c] }
+pub open spec fn s2(c: char, d: char) -> Seq<char> { seq![c, d] }
+pub proof fn lemma_prefix1(c: char)
+    ensures forall|i: Seq<char>| #[trigger] s1(c).is_prefix_of(i) <==> (i.len() > 0 && i[0] == c),
+{
+    assert forall|i: Seq<char>| #[trigger] s1(c).is_prefix_of(i) <==> (i.len() > 0 && i[0] == c) by {
+        if i.len() > 0 && i[0] == c { assert(s1(c) =~= i.subrange(0, 1)); }
+        if s1(c).is_prefix_of(i) { assert(i.subrange(0, 1)[0] == s1(c)[0]); }
+    }
+}
+// ---- `separated(1.., identifier, literal("."))` reads what g_idents reads (induction over the list winnow returns)
+pub open spec fn is_ident_parser<'s, E, P: Parser<&'s str, Identifier, E>>(p: P) -> bool {
+    &&& forall|a: &'s str, o: Identifier, b: &'s str| #[trigger] p.accepts(a, o, b) <==> (g_ident(a@) matches Some((x, r)) && ident_is(o, x) && r == b@)
+    &&& forall|a: &'s str| #[trigger] p.rejects(a) <==> g_ident(a@) is None
+}
+pub open spec fn is_dot_parser<'s, E, S: Parser<&'s str, &'s str, E>>(s: S) -> bool {
+    &&& forall|a: &'s str, o: &'s str, b: &'s str| #[trigger] s.accepts(a, o, b) ==> eat(a@, '.') == Some(b@)
+    &&& forall|a: &'s str| #[trigger] s.rejects(a) ==> eat(a@, '.') is None
+}
+pub proof fn lemma_g_ident_consumes(s: Seq<char>)
+    ensures g_ident(s) matches Some((x, r)) ==> r.len() < s.len(),
+{
+    lemma_span_le(s, |c: char| id_char(c));
+}
+pub proof fn lemma_sep_tail_idents<'s, E, P: Parser<&'s str, Identifier, E>, S: Parser<&'s str, &'s str, E>>(p: P, s: S, m: &'s str, out: Seq<Identifier>, rest: &'s str)
+    requires is_ident_parser::<E, P>(p), is_dot_parser::<E, S>(s), sep_tail::<&'s str, Identifier, &'s str, E, P, S>(p, s, m, out, rest),
+    ensures idents_are(out, g_idents_more(m@).0), g_idents_more(m@).1 == rest@,
+    decreases out.len(),
+{
+    if out.len() == 0 {
+    } else {
+        let (x, m2, m3) = choose|x: &'s str, m2: &'s str, m3: &'s str| #[trigger] s.accepts(m, x, m2) && #[trigger] p.accepts(m2, out[0], m3) && sep_tail::<&'s str, Identifier, &'s str, E, P, S>(p, s, m3, out.drop_first(), rest);
+        lemma_sep_tail_idents::<E, P, S>(p, s, m3, out.drop_first(), rest);
+        lemma_g_ident_consumes(m2@);
+        let t = g_idents_more(m3@).0;
+        let id = g_ident(m2@).unwrap().0;
+        assert(g_idents_more(m@).0 == seq![id] + t);
+        assert forall|k: int| 0 <= k < out.len() implies ident_is(#[trigger] out[k], (seq![id] + t)[k]) by {
+            if k > 0 { assert(out[k] == out.drop_first()[k - 1]); }
+        }
+    }
+}
+pub proof fn lemma_sep_all_idents<'s, E, P: Parser<&'s str, Identifier, E>, S: Parser<&'s str, &'s str, E>>(p: P, s: S, i: &'s str, out: Seq<Identifier>, rest: &'s str)
+    requires is_ident_parser::<E, P>(p), is_dot_parser::<E, S>(s), out.len() >= 1, sep_all::<&'s str, Identifier, &'s str, E, P, S>(p, s, i, out, rest),
+    ensures g_idents(i@) matches Some((x, r)) && idents_are(out, x) && r == rest@,
+{
+    let m = choose|m: &'s str| #[trigger] p.accepts(i, out[0], m) && sep_tail::<&'s str, Identifier, &'s str, E, P, S>(p, s, m, out.drop_first(), rest);
+    lemma_sep_tail_idents::<E, P, S>(p, s, m, out.drop_first(), rest);
+    lemma_g_ident_consumes(i@);
+    let t = g_idents_more(m@).0;
+    let id = g_ident(i@).unwrap().0;
+    assert forall|k: int| 0 <= k < out.len() implies ident_is(#[trigger] out[k], (seq![id] + t)[k]) by {
+        if k > 0 { assert(out[k] == out.drop_first()[k - 1]); }
+    }
+}
